@@ -47,6 +47,10 @@ class Medium:
         self.fault = None  # object with on_tx(pkt) -> None, may set pkt.drop / pkt.drop_ack
         self.destructive = destructive
 
+    def targets(self, pkt):
+        """chips that could possibly hear this packet (everybody else, by default)"""
+        return [r for r in self.radios if r is not pkt.src]
+
     def transmit(self, pkt):
         pkt.t0 = self.sim.now
         bits = 8 * (1 + len(pkt.addr) + len(pkt.payload) + pkt.crc) + (0 if pkt.legacy else 9)
@@ -70,15 +74,14 @@ class Medium:
                 entry["fate"] = "P" if pkt.drop else ("A" if pkt.drop_ack else "D")
             else:
                 entry["fate"] = "P" if pkt.drop else "D"
-        for r in self.radios:
-            if r is not pkt.src:
-                r.air_start(pkt)
+        targets = self.targets(pkt)
+        for r in targets:
+            r.air_start(pkt)
 
         def done():
-            for r in self.radios:
-                if r is not pkt.src:
-                    if r.air_end(pkt):
-                        entry["rx"].append(r.name)
+            for r in targets:
+                if r.air_end(pkt):
+                    entry["rx"].append(r.name)
             pkt.src.tx_done(pkt)
 
         self.sim.at(pkt.t1, done)
@@ -573,3 +576,26 @@ class Chip:
             pkt.for_entry["acked"] = True
         self._tx_success(pkt.payload)
         return True
+
+
+class IndexedMedium(Medium):
+    """Medium for very large static populations (C04: all 781 nodes): a packet is only offered
+    to the chips that have an enabled pipe on its address - looked up in an index built from
+    the chips' own registers - plus, for ACK packets, the chips currently waiting for one."""
+
+    def __init__(self, sim):
+        super().__init__(sim)
+        self.index = {}
+
+    def build_index(self):
+        self.index = {}
+        for c in self.radios:
+            for p in range(6):
+                if c.reg[2] & (1 << p):
+                    self.index.setdefault(c.pipe_addr(p), []).append(c)
+
+    def targets(self, pkt):
+        t = [c for c in self.index.get(bytes(pkt.addr), ()) if c is not pkt.src]
+        if pkt.is_ack:
+            t += [c for c in self.radios if c.state == "ackwait" and c is not pkt.src and c not in t]
+        return t
